@@ -32,6 +32,12 @@ UNITS = ["<div>", "<b>", "<i>", "<a>", "<p>", "<li>", "<dd>", "<dt>", "<rt>", "<
          "<h1><h2>", "<button><div>", "<rt><div>", "<div><rt>"]
 PREFIX = ["", "<div>", "<table>", "<svg>", "<select>", "<ruby>", "<p>", "<a>", "<math>", "<frameset>", "<template>", "<button>"]
 SUFFIX = ["", "</div>", "</table>", "</b>", "</a>", "</p>", "</svg>", "</select>", "</ruby>", "x", "</body></html>", "</template>", "</button>"]
+TINY = [["<form>", "</form>", "<table>", "</table>", "<object>", "</object>", "x"],
+        ["<select>", "</select>", "<table>", "<td>", "<option>", "<input>", "x"],
+        ["<a>", "</a>", "<b>", "</b>", "<p>", "</p>", "<table>"],
+        ["<svg>", "</svg>", "<desc>", "<select>", "<table>", "</table>", "<p>"],
+        ["<frameset>", "</frameset>", "<body>", "</html>", "<a>", " ", "<noframes>"],
+        ["<template>", "</template>", "<table>", "<td>", "<select>", "</table>", "<form>"]]
 CONFIGS = [(b, ns, ft) for b in ("dom", "etree") for ns in (True, False) for ft in ((False, True) if b == "etree" else (False,))]
 
 
@@ -225,6 +231,12 @@ def shards(tier):
         out.append({"kind": "soup", "n": 2500 if quick else 120000})
     for i in range(2):
         out.append({"kind": "raw", "n": 3000 if quick else 150000})
+    for i in range(2):
+        out.append({"kind": "grammar", "n": 6000 if quick else 200000})
+    # bounded-exhaustive: every sequence of <= L tokens over tiny paired alphabets (choreographies of scope barriers and pointers)
+    for ai in range(len(TINY)):
+        for part in range(2 if ai == 0 else 1):
+            out.append({"kind": "tiny", "alphabet": ai, "len": (6 if ai == 0 else 5) if quick else 7 if ai == 0 else 6, "part": part, "of": 2 if ai == 0 else 1})
     for i in range(8):
         out.append({"kind": "family", "part": i, "of": 8, "quick": quick})
     if not quick:
@@ -249,6 +261,35 @@ def run_shard(desc, seed, tier):
             v = check_case(case)
             v.classes = tuple(v.classes) + ("profile:" + profile,)
             acc.add(case, v, sample={"text": short(text, 200), "cfg": str(cfg)})
+        drive(strat, fn, desc["n"], seed)
+    elif kind == "tiny":
+        import itertools
+        al = TINY[desc["alphabet"]]
+        n = 0
+        for L in range(1, desc["len"] + 1):
+            for tup in itertools.product(al, repeat=L):
+                n += 1
+                if n % desc["of"] != desc["part"]:
+                    continue
+                text = "".join(tup)
+                cfgi = (n + seed) % len(CONFIGS)
+                b, ns, ft = CONFIGS[cfgi]
+                case = {"text": text, "builder": b, "namespace": ns, "full_tree": ft, "container": None if n % 3 else ["div", "table", "form", "select", "td"][n % 5], "scripting": bool(n & 8)}
+                acc.add(case, check_case(case))
+        acc.extra["tiny_alphabet_sequences"] = n // desc["of"]
+        acc.exhaustive = True
+    elif kind == "grammar":
+        # long sequences over a tiny paired alphabet (form pointer / scope barriers / select / table): crashes that need a
+        # specific 5-8 token choreography
+        AL = ["<form>", "<form>", "</form>", "</form>", "<table>", "</table>", "<object>", "</object>", "<marquee>", "</marquee>", "<applet>", "</applet>", "<div>", "</div>", "<p>", "x",
+              "<input>", "<tr>", "<td>", "</td>", "<template>", "</template>", "<button>", "</button>", "<select>", "</select>", "<svg>", "</svg>", "<li>", "<dd>", "<a>", "</a>", "<b>", "</b>",
+              "<frameset>", "</frameset>", "<head>", "</head>", "<body>", "</body>", "<html>", "</html>", "<title>", "<math>", "<mi>", "<option>", "<caption>", "<colgroup>", "</p>", "</br>"]
+        strat = st.tuples(st.lists(st.sampled_from(AL), min_size=3, max_size=14).map("".join), _cfg)
+
+        def fn(x):
+            inp, cfg = x
+            case = _mk(inp, cfg)
+            acc.add(case, check_case(case), sample={"input": short(inp, 120), "cfg": str(cfg)})
         drive(strat, fn, desc["n"], seed)
     elif kind == "raw":
         strat = st.tuples(st.one_of(st.binary(max_size=60), st.text(max_size=40),
